@@ -1,6 +1,8 @@
 """Configuration of ./check C19 (see cfg/README)."""
 
-PROP = {'modules': ['SfntV.Props.C19'],
+PROP = {'drive': ['Dsl'],
+ 'harness_files': ['area_dsl.go', 'area_dsl2.go'],
+ 'modules': ['SfntV.Props.C19'],
  'required_theorems': ['C19_token_table',
                        'C19_flags_same_spelling',
                        'C19_flags',
@@ -15,22 +17,27 @@ PROP = {'modules': ['SfntV.Props.C19'],
                        'C19_roundtrip_gsub3_partial',
                        'C19_roundtrip_gsub4_partial',
                        'C19_roundtrip_subtables_partial',
+                       'C19_roundtrip_gpos1_partial',
+                       'C19_roundtrip_gpos2_partial',
                        'C19_roundtrip_lists_partial',
+                       'C19_glyphlist_roundtrip_partial',
                        'C19_total_partial'],
- 'areas': [('dsl', 1500, 30000)],
+ 'areas': [('dsl', 6000, 60000)],
  'rule': 'distinct case lines (font = glyph count, names, cmap; text or lookup list; GOMAXPROCS); non-trivial = '
          'text of at least two bytes / at least one lookup / a non-zero flag set',
- 'partial': ['C19_roundtrip_full t (t = 1..4: all fonts and lookups of the domain) is stated; proved are the '
-             'exhaustive universes C19_roundtrip_gsub{1,2,3,4}_partial and C19_roundtrip_lists_partial over two '
+ 'partial': ['C19_roundtrip_full t (GSUB t = 1..4), C19_roundtrip_gpos_full t (GPOS t = 1, 2) and '
+             'C19_glyphlist_roundtrip_full (all fonts and lookups of the domain) are stated; proved are the '
+             'exhaustive universes C19_roundtrip_gsub{1,2,3,4}_partial, C19_roundtrip_gpos{1,2}_partial, '
+             'C19_roundtrip_subtables_partial, C19_roundtrip_lists_partial, C19_glyphlist_roundtrip_partial over two '
              'small fonts (numbers/ranges; names, strings with escapes), by kernel evaluation of the whole '
              'pipeline printer -> UTF-8 -> lexer -> parser; beyond them the round trip is checked on the real code '
              '(stream dsl.roundtrip) and on the model (dsl.modelrt)',
-             'GSUB 5/6 and GPOS 1-4: parser and printer not modelled in Lean; the round trip Parse(Explain(l)) = l is '
+             'GSUB 5/6 and GPOS 3/4: parser and printer not modelled in Lean; the round trip Parse(Explain(l)) = l is '
              'evaluated on the real code only (stream dsl.rtseed: lookups regenerated from the seed in the case line, '
              'structural comparison in the harness, Lean side fixes the verdict), plus dsl.total and dsl.goroutines',
              'C19_total_full (no unmodelled escape) is stated; C19_total_partial is proved for all fonts and texts: the '
-             'parser model (lexer, item supply, fatal, flags, glyph lists, GSUB 1-4 with several subtables) returns '
-             'lookups or an error with line >= 1 or stops at a GSUB 5/6 / GPOS keyword, and never runs out of loop '
+             'parser model (lexer, item supply, fatal, flags, glyph lists, GSUB 1-4 and GPOS 1-2 with several subtables) '
+             'returns lookups or an error with line >= 1 or stops at a GSUB 5/6 / GPOS 3/4 keyword, and never runs out of loop '
              'fuel; for the other forms the real code is checked by stream dsl.total (outcome class and line >= 1)',
              'goroutine clause: C19_confluent/C19_terminates/C19_no_leak are about the process model; that the Go '
              'runtime implements unbuffered channels as the model says is trusted; the real code is observed by '
@@ -41,8 +48,8 @@ PROP = {'modules': ['SfntV.Props.C19'],
  'modelled_not_verified': ['unicode.IsLetter/IsDigit/IsSpace and strconv.IsPrint are regenerated range tables of '
                            'the Go toolchain; utf8.DecodeRuneInString and string(rune) re-implemented in Lean and '
                            'compared by correspondence (random bytes, invalid UTF-8)',
-                           'strconv.Atoi overflow is not modelled separately (every caller in the modelled forms '
-                           'rejects values of 65536 and above anyway)',
+                           'strconv.Atoi: no digits and the 64-bit range are modelled in readInt16; in glyph lists '
+                           'overflow is not modelled separately (values of 65536 and above are rejected anyway)',
                            'Go maps in readGsub1-4 are association lists; results do not depend on iteration order '
                            '(coverage is sorted, isConstDelta is order-independent)',
                            'error messages are compared by class (leading words of the format string) and line, '
@@ -55,7 +62,7 @@ PROP = {'modules': ['SfntV.Props.C19'],
                  'before reading the text (an error without line number; reported as an observation)']}
 
 LEVEL = {'text': 'Proof (partial): Lean models of the lexer (token machine over Go-decoded UTF-8, line counting), of '
-         'Parse for lookup flags, glyph lists/sets/ranges/strings and GSUB 1-4, of ExplainGsub for the same, and a '
+         'Parse for lookup flags, glyph lists/sets/ranges/strings, GSUB 1-4 and GPOS 1-2, of ExplainGsub/ExplainGpos for the same, and a '
          'three-process model of the goroutine/channel structure with an arbitrary scheduler. Proved for all '
          'inputs: the lexer is total and ends in exactly one EOF/error item with lines >= 1 (C19_lex_total); every '
          'flag subset round-trips and the two flag tables regenerated from parser.go/explain.go coincide '
